@@ -128,6 +128,25 @@ theorem loadInto_noNewPairs (doc : PyVal) (s0 s : ImgState) (n0 : Nat)
   rw [hadd] at this
   exact hp.trans this
 
+theorem mem_all_cellsDiscard {cs : Cells} {v a : Str} {id : Nat} {x : Image} (h : x ∈ (cellsDiscard cs v a id).all) : x ∈ cs.all := by
+  simp only [Cells.all, cellsDiscard, List.mem_flatMap, List.mem_map] at h ⊢
+  obtain ⟨va', ⟨va, hva, rfl⟩, ac', hac', e, he, rfl⟩ := h
+  split at hac'
+  · simp only [List.mem_map] at hac'
+    obtain ⟨ac, hac, rfl⟩ := hac'
+    split at he
+    · exact ⟨va, hva, ac, hac, e, (List.mem_filter.mp he).1, rfl⟩
+    · exact ⟨va, hva, ac, hac, e, he, rfl⟩
+  · exact ⟨va, hva, ac', hac', e, he, rfl⟩
+
+theorem mem_all_cellsDelVariant {cs : Cells} {v : Str} {x : Image} (h : x ∈ (cellsDelVariant cs v).all) : x ∈ cs.all := by
+  simp only [Cells.all, cellsDelVariant, List.mem_flatMap, List.mem_map] at h ⊢
+  obtain ⟨va, hva, rest⟩ := h
+  exact ⟨va, (List.mem_filter.mp hva).1, rest⟩
+
+theorem noNewPairs_of_subset {cs cs' : Cells} (h : ∀ x ∈ cs'.all, x ∈ cs.all) : NoNewPairs cs cs' :=
+  fun i hi j hj _ => ⟨h i hi, h j hj⟩
+
 /-- the step happens at an enforcing version: the object's header for `add`, the document's header for `loads` -/
 def OpEnforced (s : ImgState) : HOp → Prop
   | .add _ => Enforces s.version
@@ -149,6 +168,8 @@ theorem hstep_noNewPairs (s : ImgState) (op : HOp) (h : OpEnforced s op) : NoNew
     cases hd : deserializeInto s n0 doc with
     | error e => exact NoNewPairs.refl _
     | ok s' => exact loadInto_noNewPairs doc s s' n0 h hd
+  | discard v a id => exact noNewPairs_of_subset fun x hx => mem_all_cellsDiscard hx
+  | delVariant v => exact noNewPairs_of_subset fun x hx => mem_all_cellsDelVariant hx
 
 theorem run_noNewPairs (ops : List HOp) : ∀ s, EnforcedRun s ops → NoNewPairs s.cells (ops.foldl (fun s op => (hstep s op).1) s).cells := by
   induction ops with
